@@ -1139,6 +1139,51 @@ def build_T15k(tree):
     return '\n\n'.join(texts), hashlib.sha256(''.join(shas).encode()).hexdigest()
 
 
+# ---------------------------------------------------------------- T15l: the guards of the key object selection document
+def build_T15l(tree):
+    """ko/sop.py::KeyObjectSelectionDocument.__init__ (bridge for the hand-written buildKO):
+      Gen.koEvidenceGuard (n_evidence)       `if len(evidence) == 0`
+      Gen.koStudyGuard (n_ref_items)         current-procedure evidence recorded iff some study group exists; more than one refused
+    plus shape checks: collect_evidence(evidence, content[0]); the reference table is filled from
+    CurrentRequestedProcedureEvidenceSequence with (study, series, instance) under the instance UID; resolve_reference
+    turns a KeyError into a ValueError."""
+    fn = find_func(tree, 'KeyObjectSelectionDocument.__init__')
+    body = strip_doc(fn.body)
+    texts = []
+    ev = _one(body, lambda s: isinstance(s, ast.If) and 'len(evidence)' in _norm(s.test), 'guard on the evidence list')
+    texts.append(translate_block([ev] + _parse('return True'), 'koEvidenceGuard', [], {'len(evidence)': ('int', 'n_evidence')},
+                                 doc='`KeyObjectSelectionDocument.__init__`: an empty evidence list is refused'))
+    col = _one(body, lambda s: isinstance(s, ast.Assign) and 'collect_evidence' in _norm(s.value), 'call of collect_evidence')
+    if _norm(col) != 'ref_items, unref_items = collect_evidence(evidence, content[0])':
+        raise Unsupported('KeyObjectSelectionDocument.__init__: collect_evidence is no longer called with (evidence, content[0])')
+    k = body.index(col)
+    cur = body[k + 1]
+    if not (isinstance(cur, ast.If) and not cur.orelse and len(cur.body) == 2 and
+            _norm(cur.body[0]) == 'self.CurrentRequestedProcedureEvidenceSequence = ref_items' and
+            isinstance(cur.body[1], ast.If) and isinstance(cur.body[1].body[0], ast.Raise) and not cur.body[1].orelse):
+        raise Unsupported('KeyObjectSelectionDocument.__init__: recording of the evidence / the single-study guard changed shape')
+    inner = ast.If(test=cur.body[1].test, body=[cur.body[1].body[0]], orelse=[])
+    blk = [ast.If(test=cur.test, body=[inner] + _parse('return True'), orelse=[])] + _parse('return False')
+    for x in blk:
+        ast.fix_missing_locations(x)
+    texts.append(translate_block(blk, 'koStudyGuard', [], {'len(ref_items)': ('int', 'n_ref_items')},
+                                 doc='`KeyObjectSelectionDocument.__init__`: is the current-procedure evidence recorded (several study groups: refused)'))
+    t = _norm(fn)
+    for needle in ('self._content = KeyObjectSelection.from_sequence(content, is_root=True)',
+                   'for study_item in self.CurrentRequestedProcedureEvidenceSequence: for series_item in study_item.ReferencedSeriesSequence: '
+                   'for instance_item in series_item.ReferencedSOPSequence: sop_instance_uid = instance_item.ReferencedSOPInstanceUID '
+                   'self._reference_lut[sop_instance_uid] = (study_item.StudyInstanceUID, series_item.SeriesInstanceUID, sop_instance_uid)'):
+        if needle not in t:
+            raise Unsupported(f'KeyObjectSelectionDocument.__init__: `{needle[:70]}...` not found')
+    rr = _norm(find_func(tree, 'KeyObjectSelectionDocument.resolve_reference'))
+    if 'try: return self._reference_lut[sop_instance_uid] except KeyError as e: raise ValueError(' not in rr:
+        raise Unsupported('KeyObjectSelectionDocument.resolve_reference changed')
+    order = [body.index(ev), body.index(col)]
+    if order != sorted(order):
+        raise Unsupported('KeyObjectSelectionDocument.__init__: the evidence guard no longer precedes the evidence collection')
+    return '\n\n'.join(texts), hashlib.sha256((_norm(ev) + _norm(col) + _norm(cur) + rr).encode()).hexdigest()
+
+
 TARGETS = {'T15a': {'file': 'sr/sop.py', 'build': build_T15a},
            'T15e': {'file': 'sr/enum.py', 'build': build_T15e},
            'T15d': {'file': 'sr/sop.py', 'build': build_T15d},
@@ -1149,4 +1194,5 @@ TARGETS = {'T15a': {'file': 'sr/sop.py', 'build': build_T15a},
            'T15h': {'file': 'sr/sop.py', 'build': build_T15h},
            'T15i': {'file': 'sr/sop.py', 'build': build_T15i},
            'T15j': {'file': 'sr/value_types.py', 'build': build_T15j},
-           'T15k': {'file': 'sr/sop.py', 'build': build_T15k}}
+           'T15k': {'file': 'sr/sop.py', 'build': build_T15k},
+           'T15l': {'file': 'ko/sop.py', 'build': build_T15l}}
